@@ -1,6 +1,7 @@
 mod macros;
 
 use std::borrow::Borrow;
+use std::cell::RefCell;
 use std::collections::HashMap;
 use std::rc::Rc;
 
@@ -14,7 +15,8 @@ use crate::compiler::cldb::hex_to_modern_sexp;
 use crate::compiler::clvm;
 use crate::compiler::clvm::truthy;
 use crate::compiler::comptypes::{
-    BodyForm, CompileErr, CompileForm, CompilerOpts, HelperForm, IncludeDesc, IncludeProcessType,
+    BodyForm, CompileErr, CompileForm, CompilerOpts, HasCompilerOptsDelegation, HelperForm,
+    IncludeDesc, IncludeProcessType,
 };
 use crate::compiler::dialect::{detect_modern, KNOWN_DIALECTS};
 use crate::compiler::evaluate::{create_argument_captures, ArgInputs};
@@ -610,17 +612,74 @@ pub fn gather_dependencies(
             .set_frontend_opt(stepping > 21);
     }
 
+    // Some files are read by frontend passes whose include lists don't survive
+    // into the final program (the body of a defmacro is its own program; a
+    // helper that nothing uses is dropped, together with any (mod ...) it
+    // contains).  Note every file handed out through read_new_file so those
+    // can be reported as well.
+    let files_read = Rc::new(RefCell::new(Vec::new()));
+    let recording_opts: Rc<dyn CompilerOpts> = Rc::new(RecordFilesRead {
+        opts,
+        files_read: files_read.clone(),
+    });
+
     let parsed = parse_sexp(Srcloc::start(real_input_path), file_content.bytes())?;
-    let program = frontend(opts, &parsed)?;
+    let program = frontend(recording_opts, &parsed)?;
 
     let mut include_forms = program.include_forms.clone();
     collect_nested_mod_includes(&mut include_forms, &program);
+
+    let files_read_ref: &RefCell<Vec<String>> = files_read.borrow();
+    for full_name in files_read_ref.borrow().iter() {
+        if !include_forms.iter().any(|i| i.name == full_name.as_bytes()) {
+            let loc = Srcloc::start(real_input_path);
+            include_forms.push(IncludeDesc {
+                kw: loc.clone(),
+                nl: loc,
+                name: full_name.as_bytes().to_vec(),
+                kind: None,
+            });
+        }
+    }
 
     let filtered_results: Vec<IncludeDesc> = include_forms
         .into_iter()
         .filter(|f| !f.name.starts_with(b"*"))
         .collect();
     Ok(filtered_results)
+}
+
+/// A CompilerOpts that notes the resolved name of every file it hands out.
+#[derive(Clone)]
+struct RecordFilesRead {
+    opts: Rc<dyn CompilerOpts>,
+    files_read: Rc<RefCell<Vec<String>>>,
+}
+
+impl HasCompilerOptsDelegation for RecordFilesRead {
+    fn compiler_opts(&self) -> Rc<dyn CompilerOpts> {
+        self.opts.clone()
+    }
+
+    fn update_compiler_opts<F: FnOnce(Rc<dyn CompilerOpts>) -> Rc<dyn CompilerOpts>>(
+        &self,
+        f: F,
+    ) -> Rc<dyn CompilerOpts> {
+        Rc::new(RecordFilesRead {
+            opts: f(self.opts.clone()),
+            files_read: self.files_read.clone(),
+        })
+    }
+
+    fn override_read_new_file(
+        &self,
+        inc_from: String,
+        filename: String,
+    ) -> Result<(String, Vec<u8>), CompileErr> {
+        let (full_name, content) = self.opts.read_new_file(inc_from, filename)?;
+        self.files_read.borrow_mut().push(full_name.clone());
+        Ok((full_name, content))
+    }
 }
 
 // A (mod ...) used as an expression is parsed by its own frontend pass and
